@@ -628,6 +628,9 @@ def c06(ctx):
             bad = ('countTacticalMoves-differs', {'engine_count': int(a[5]), 'rules_tactical_moves': len(sp[2].split())})
         elif legal_n != int(a[4]) or tact_n != int(a[5]):
             bad = ('generator-and-counter-disagree', {'generated': legal_n, 'counted': int(a[4]), 'generated_tactical': tact_n, 'counted_tactical': int(a[5])})
+        elif len(a) > 10 and a[10] != 'same':
+            bad = ('move-lists-change-after-an-evaluation-of-the-same-position', {'observation': a[10][:400], 'tactical_before': tact,
+                   'note': 'quiescence evaluates a position object and then generates its capture list from it'})
         # flags: a generated legal move is marked tactical iff it is in the rules' tactical set
         else:
             flagged = ' '.join(sorted(re.sub(r'[*]|@..', '', m) for m in a[2].split() if '*' in m))
@@ -1201,6 +1204,11 @@ def c10(ctx):
         hist = ['setoption name currmoveLogInterval value %d' % [10, 50, 1000][k % 3]]
         if k % 4 == 3:
             jobs.append(S.Job(p['fen'], 'go infinite', history=hist, stop_after=0.25 + 0.1 * (k % 5)))   # mid-iteration PV prints need >= 200 ms
+        elif k % 8 == 1:
+            # a deadline that has passed before the first root move is searched (movetime <= margin), after another position was searched
+            jobs.append(S.Job(p['fen'], 'go movetime %d' % [1, 10, 50, 51, 60][k % 5], history=hist + [S.pos_cmd(pos[(k + 7) % len(pos)]['fen']), 'go depth 2', ('wait',)]))
+        elif k % 8 == 5:
+            jobs.append(S.Job(p['fen'], 'go infinite', history=hist, stop_after=0.0))      # stop right behind the go
         else:
             jobs.append(S.Job(p['fen'], 'go depth %d' % d, history=hist))
     S.run_jobs(jobs, workers=8, per_job_timeout=90)
@@ -1523,7 +1531,7 @@ import subprocess, threading
 
 @check('C16', ['C16.v', 'C16sess.v'])
 def c16(ctx):
-    n = 150 if ctx.quick else 5000
+    n = 150 if ctx.quick else 1500
     rc, out, err, stats = harness(['queries', str(n)], timeout=3000)
     rows = [l.split('\t') for l in out.strip().split('\n') if l]
     kinds = {}
@@ -1555,6 +1563,11 @@ def c17(ctx):
     nscripts, nlines = (48, 22) if ctx.quick else (3000, 30)
     rng = ctx.rng
     scripts = [L.gen_script(rng, nlines) for _ in range(nscripts)]
+    # legal move lists long enough to carry the int16 game-ply counter past 32767 (the loader's move-number cap leaves ~900 plies)
+    shuffle = ' '.join(['g1f3 g8f6 f3g1 f6g8'] * 250)
+    scripts.append(['position fen rnbqkbnr/pppppppp/8/8/8/8/PPPPPPPP/RNBQKBNR w KQkq - 0 15933 moves ' + shuffle, 'isready', 'go depth 2', 'perft 1', 'tperft 1', 'eval', 'isready'])
+    scripts.append(['position fen rnbqkbnr/pppppppp/8/8/8/8/PPPPPPPP/RNBQKBNR w KQkq - 0 15900 moves ' + shuffle, 'go depth 1', 'perft 2', 'isready'])
+    nscripts = len(scripts)
     model_raw = run_oracle(['SESS\t' + '\n'.join(s).encode('latin-1', 'replace').hex() for s in scripts])
     models = []
     for m in model_raw:
